@@ -1112,8 +1112,12 @@ func checkNestedConstructsRestoreState(w *World, r *Report) {
 // definition that a template further down the extends chain, or the block registry, still counts
 // on.  Copies that keep every element (flattening, re-slicing) are not affected.
 func checkParsedNodesNotFiltered(w *World, r *Report) {
+	checkListsNotFiltered(w, r, "R10.12", w.lookup("Node").Type(), "node", "parsed nodes (block definitions among them) are dropped from the tree, and the extends chain below this template no longer finds what the template wrote")
+}
+
+// checkListsNotFiltered: the rule of R10.12 for lists of the given element type (nodes, tokens).
+func checkListsNotFiltered(w *World, r *Report, rule string, nodeT types.Type, what string, consequence string) {
 	reach := w.parseReachable()
-	nodeT := w.lookup("Node").Type()
 	n := 0
 	for _, fn := range w.pkgFuncs() {
 		if !reach[fn] {
@@ -1147,21 +1151,21 @@ func checkParsedNodesNotFiltered(w *World, r *Report) {
 				return
 			}
 			n++
-			construct := "element of " + describe(src) + " copied into another node list"
+			construct := "element of " + describe(src) + " copied into another " + what + " list"
 			bad := ""
 			for _, cond := range iterationConds(in, unspill(elem)) {
-				if valueDependsOn(cond, elem, 8) {
+				if valueDependsOn(cond, elem, 8) || readsSameElement(cond, elem) {
 					bad = w.posOf(cond.Pos())
 				}
 			}
 			if bad == "" {
-				r.ok("R10.12", ssaName(fn), construct, w.posOf(in.Pos()), "the copy does not depend on what the element is", true)
+				r.ok(rule, ssaName(fn), construct, w.posOf(in.Pos()), "the copy does not depend on what the element is", true)
 			} else {
-				r.bad("R10.12", ssaName(fn), construct, w.posOf(in.Pos()), "whether the node is kept depends on the test at "+bad+" over the node itself: parsed nodes (block definitions among them) are dropped from the tree, and the extends chain below this template no longer finds what the template wrote")
+				r.bad(rule, ssaName(fn), construct, w.posOf(in.Pos()), "whether the "+what+" is kept depends on the test at "+bad+" over the "+what+" itself: "+consequence)
 			}
 		})
 	}
-	r.Counts["element-wise copies of node lists in the parser"] = n
+	r.Counts["element-wise copies of "+what+" lists in the parser"] = n
 }
 
 // elementStoredInto: for the variadic slice of append(xs, v) — new [1]Node with v stored at 0 —
@@ -1296,4 +1300,40 @@ func checkPrintWritesWholeValue(w *World, r *Report) {
 		})
 	}
 	r.floor("writes of PrintNode.Render", n, 1)
+}
+
+// readsSameElement: v is computed from a read of the list element elem was read from (xs[i].f
+// beside xs[i]: another load through an address with the same list and the same index).
+func readsSameElement(v, elem ssa.Value) bool {
+	var ea *ssa.IndexAddr
+	for _, o := range originChain(elem) {
+		if u, ok := o.(*ssa.UnOp); ok && u.Op == token.MUL {
+			if ia, ok := u.X.(*ssa.IndexAddr); ok {
+				ea = ia
+			}
+		}
+	}
+	if ea == nil {
+		return false
+	}
+	seen := map[ssa.Value]bool{}
+	var walk func(v ssa.Value, d int) bool
+	walk = func(v ssa.Value, d int) bool {
+		if v == nil || seen[v] || d > 8 {
+			return false
+		}
+		seen[v] = true
+		if ia, ok := v.(*ssa.IndexAddr); ok && ia != ea && sameValue(unspill(ia.X), unspill(ea.X)) && sameValue(unspill(ia.Index), unspill(ea.Index)) {
+			return true
+		}
+		if in, ok := v.(ssa.Instruction); ok {
+			for _, op := range in.Operands(nil) {
+				if *op != nil && walk(*op, d+1) {
+					return true
+				}
+			}
+		}
+		return false
+	}
+	return walk(v, 0)
 }
